@@ -33,10 +33,13 @@ type c10Spec struct {
 	Other  int       `json:"other,omitempty"` // 0 none, 1 other field's events before, 2 between, 3 after ours
 	Factor float64   `json:"factor,omitempty"` // global fertilisation factor (%)
 	Zero   bool      `json:"zero,omitempty"`   // global fertilisation factor 0 % (unfertilised scenario)
+	Start  string    `json:"start,omitempty"`  // first simulated day ("" = 10 April 2001)
 	Spell  int       `json:"spell,omitempty"`  // how the schedule files are written: 0 plain; 1 records indented by two blanks; 2 by a tab; 3 fields separated by tabs; 4 CRLF line ends
 }
 
 const c10Len = 24 // simulated days: offsets 0..23
+
+var c10Start = e1Start // first simulated day of the scenario being executed
 
 var c10Ferts = []string{"KAS", "RG", "SM", "AHL", "NIT"}
 
@@ -112,6 +115,35 @@ func c10Specs(tier string, seed int) []c10Spec {
 				n++
 				out = append(out, sp)
 			}
+		}
+	}
+	// periods across a year change (into a normal year, into a leap year, out of a leap year): all event lists of <= 3
+	// events on the days 29 December .. 3 January
+	for _, st := range []string{"2001-12-22", "2003-12-22", "2004-12-22"} {
+		for _, what := range []string{"fert", "till", "irr"} {
+			per := 2
+			if what == "irr" {
+				per = 1
+			}
+			ms := c10Multisets([]int{7, 8, 9, 10, 11, 12}, 3, per)
+			sp := c10Spec{What: what, Window: "start", Fmt: "DateDElong", Factor: 100, Start: st}
+			for j0, m := range ms {
+				var evs []c10Ev
+				for j, off := range m {
+					e := c10Ev{Off: off}
+					switch what {
+					case "fert":
+						e.Kind, e.Amt = c10Ferts[(j0+j)%len(c10Ferts)], float64(20+10*((j0+j)%5))
+					case "till":
+						e.Amt, e.Kind = float64([]int{10, 20, 30}[(j0+j)%3]), fmt.Sprint((j0+j)%2)
+					case "irr":
+						e.Amt, e.Kind = float64(5+5*((j0+j)%4)), fmt.Sprint(10*((j0+j)%3))
+					}
+					evs = append(evs, e)
+				}
+				sp.Scheds = append(sp.Scheds, evs)
+			}
+			out = append(out, sp)
 		}
 	}
 	// long schedules: hundreds of events of one kind (the event tables are filled far beyond their first few slots),
@@ -216,6 +248,10 @@ type c10Exec struct {
 func c10Run(raw json.RawMessage, c *mc.Ctx) {
 	sp := mc.Decode[c10Spec](raw)
 	c10LoadFert()
+	c10Start = e1Start
+	if sp.Start != "" {
+		c10Start = sp.Start
+	}
 	switch sp.What {
 	case "irr-many":
 		c10Many(c, sp.Other, int(sp.Factor))
@@ -226,10 +262,10 @@ func c10Run(raw json.RawMessage, c *mc.Ctx) {
 	case "crop":
 		for a := 1; a <= 4; a++ {
 			for b := a + 3; b <= a+9; b += 2 {
-				rot := []proj.CropEntry{{Crop: "SW", Sow: isoAdd(e1Start, a), Harvest: isoAdd(e1Start, b), Rex: 50}}
+				rot := []proj.CropEntry{{Crop: "SW", Sow: isoAdd(c10Start, a), Harvest: isoAdd(c10Start, b), Rex: 50}}
 				c10RunSchedule(c, sp, "crop", nil, nil, nil, rot)
 				if b+5 < c10Len-1 {
-					rot2 := append(append([]proj.CropEntry{}, rot...), proj.CropEntry{Crop: "SM", Sow: isoAdd(e1Start, b+2), Harvest: isoAdd(e1Start, b+5), Rex: 0})
+					rot2 := append(append([]proj.CropEntry{}, rot...), proj.CropEntry{Crop: "SM", Sow: isoAdd(c10Start, b+2), Harvest: isoAdd(c10Start, b+5), Rex: 0})
 					c10RunSchedule(c, sp, "crop", nil, nil, nil, rot2)
 				}
 			}
@@ -326,20 +362,20 @@ func c10RunSchedule(c *mc.Ctx, sp c10Spec, what string, fert, till, irr []c10Ev,
 	if sp.Zero {
 		factor = 0
 	}
-	b := e1Base{Soil: "loam12", GW: 99, InitW: 0.6, InitN: 20, ET: 3}
+	b := e1Base{Soil: "loam12", GW: 99, InitW: 0.6, InitN: 20, ET: 3, Start: c10Start}
 	p := e1Project(b, c10Len)
-	p.Meas.Date = isoAdd(e1Start, 0) // measurement on the start day: no overwrite inside the judged days
+	p.Meas.Date = isoAdd(c10Start, 0) // measurement on the start day: no overwrite inside the judged days
 	p.Config["Dateformat"] = sp.Fmt
 	p.Config["DivideCentury"] = "50"
-	p.Config["EndDate"] = proj.DateStr(sp.Fmt, proj.D(isoAdd(e1Start, c10Len-1)))
+	p.Config["EndDate"] = proj.DateStr(sp.Fmt, proj.D(isoAdd(c10Start, c10Len-1)))
 	p.Config["ManagementEvents"] = "1"
 	p.Config["Fertilization"] = fmt.Sprint(factor)
 	p.Config["AnnualOutputDate"] = map[bool]string{true: "0101", false: "0101"}[true]
 	if rot != nil {
 		p.Rotation = append(p.Rotation[:1], rot...)
-		p.Rotation = append(p.Rotation, proj.CropEntry{Crop: "WW", Sow: isoAdd(e1Start, 200), Harvest: isoAdd(e1Start, 400)})
+		p.Rotation = append(p.Rotation, proj.CropEntry{Crop: "WW", Sow: isoAdd(c10Start, 200), Harvest: isoAdd(c10Start, 400)})
 	}
-	ds := func(off int) string { return proj.DateStr(sp.Fmt, proj.D(isoAdd(e1Start, off))) }
+	ds := func(off int) string { return proj.DateStr(sp.Fmt, proj.D(isoAdd(c10Start, off))) }
 	c10Spell = sp.Spell
 	var fr, tr, ir []string
 	for _, e := range fert {
@@ -357,16 +393,16 @@ func c10RunSchedule(c *mc.Ctx, sp c10Spec, what string, fert, till, irr []c10Ev,
 		"irr_" + p.ID + ".txt":  c10File("Field_ID  Ir N03 date\n          mm mg/l \n", ir, sp.Other, fmt.Sprintf("%-9s 33  5 %s", "OTHER", ds(2))),
 	}
 	if len(irr) > 0 {
-		p.Irr = []proj.Irr{{Date: isoAdd(e1Start, 1), MM: 1}} // switches the irrigation flag of the polygon file on; the file itself is overridden above
+		p.Irr = []proj.Irr{{Date: isoAdd(c10Start, 1), MM: 1}} // switches the irrigation flag of the polygon file on; the file itself is overridden above
 	}
 	word := make([]string, c10Len+2)
 	for i := range word {
 		word[i] = "mild"
 	}
 	p.Weather = e1Weather(0, word, false)
-	start := proj.ZEIT(proj.D(e1Start))
+	start := proj.ZEIT(proj.D(c10Start))
 	// ---- observed state jumps
-	type dayObs struct{ dsumm, fast, slow, irrig, c10 float64 }
+	type dayObs struct{ dsumm, fast, slow, irrig, c10, fluss float64 }
 	// baseline: the same project without any scheduled event (the residues of the initial crop are worked in on day +1)
 	files := p.Files
 	p.Files = map[string]string{
@@ -383,7 +419,7 @@ func c10RunSchedule(c *mc.Ctx, sp c10Spec, what string, fert, till, irr []c10Ev,
 				d0 = dayObs{dsumm: g.DSUMM, fast: c10Pool(g.NFOS[:], g.MINFOS[:]), slow: c10Pool(g.NAOS[:], g.MINAOS[:]), c10: g.C1[0]}
 			},
 			AfterEvatra: func(g *hermes.GlobalVarsMain, zeit int, w *hermes.WaterSharedVars) {
-				base[zeit-start] = &dayObs{irrig: g.EffectiveIRRIG, c10: g.C1[0] - d0.c10 - g.DEPOS/365}
+				base[zeit-start] = &dayObs{irrig: g.EffectiveIRRIG, c10: g.C1[0] - d0.c10 - g.DEPOS/365, fluss: g.FLUSS0}
 			},
 			DayEnd: func(g *hermes.GlobalVarsMain, zeit int, steps, wdt float64, cs *hermes.CropSharedVars, w *hermes.WaterSharedVars) {
 				o := base[zeit-start]
@@ -402,7 +438,7 @@ func c10RunSchedule(c *mc.Ctx, sp c10Spec, what string, fert, till, irr []c10Ev,
 			d0 = dayObs{dsumm: g.DSUMM, fast: c10Pool(g.NFOS[:], g.MINFOS[:]), slow: c10Pool(g.NAOS[:], g.MINAOS[:]), c10: g.C1[0]}
 		},
 		AfterEvatra: func(g *hermes.GlobalVarsMain, zeit int, w *hermes.WaterSharedVars) {
-			o := &dayObs{irrig: g.EffectiveIRRIG, c10: g.C1[0] - d0.c10 - g.DEPOS/365}
+			o := &dayObs{irrig: g.EffectiveIRRIG, c10: g.C1[0] - d0.c10 - g.DEPOS/365, fluss: g.FLUSS0}
 			obs[zeit-start] = o
 		},
 		DayEnd: func(g *hermes.GlobalVarsMain, zeit int, steps, wdt float64, cs *hermes.CropSharedVars, w *hermes.WaterSharedVars) {
@@ -594,13 +630,18 @@ func c10RunSchedule(c *mc.Ctx, sp c10Spec, what string, fert, till, irr []c10Ev,
 			if o == nil || bs == nil {
 				continue
 			}
-			o = &dayObs{o.dsumm - bs.dsumm, o.fast - bs.fast, o.slow - bs.slow, o.irrig - bs.irrig, o.c10 - bs.c10}
+			o = &dayObs{o.dsumm - bs.dsumm, o.fast - bs.fast, o.slow - bs.slow, o.irrig - bs.irrig, o.c10 - bs.c10, o.fluss - bs.fluss}
 			w := wantD[d]
 			if w == nil {
 				w = &dayObs{}
 			}
 			c.Eval(5)
 			c.State(mc.NewHasher().S(what).I(d).F(o.dsumm).F(o.irrig).F(o.fast).F(o.slow).Sum())
+			// the irrigation water enters that day's infiltration: the flux through the surface exceeds that of the run without
+			// events by the irrigation amount (up to the difference in evaporation, which a mild day keeps below 2 mm)
+			if irr != nil && math.Abs(o.fluss-w.irrig) > 0.2 {
+				c.Violate("irrigation-water-not-in-the-day's-infiltration "+sp.Window, fmt.Sprintf("%s: on day %+d the flux through the surface is %.4g cm above the run without events, the schedule irrigates %.4g cm that day", label, d, o.fluss, w.irrig), nil)
+			}
 			cmp := func(name string, got, want float64) {
 				if math.Abs(got-want) > 1e-9*(1+math.Abs(want)) {
 					c.Violate("state-jump "+name+" "+sp.Window, fmt.Sprintf("%s: on day %+d %s changed by %.10g, the schedule prescribes %.10g", label, d, name, got, want), nil)
@@ -705,14 +746,14 @@ func c10Many(c *mc.Ctx, n, pre int) {
 	days := n + 10
 	b := e1Base{Soil: "sand20", GW: 99, InitW: 0.5, InitN: 10, ET: 3}
 	p := e1Project(b, days)
-	p.Meas.Date = isoAdd(e1Start, 0)
+	p.Meas.Date = isoAdd(c10Start, 0)
 	p.Config["ManagementEvents"] = "1"
 	for i := 0; i < n; i++ {
-		p.Irr = append(p.Irr, proj.Irr{Date: isoAdd(e1Start, i-pre+1), MM: float64(10 + 10*(i%3)), NConc: float64(i % 4)})
+		p.Irr = append(p.Irr, proj.Irr{Date: isoAdd(c10Start, i-pre+1), MM: float64(10 + 10*(i%3)), NConc: float64(i % 4)})
 	}
 	p.Weather = seasonWeather(proj.D(p.WeatherStart), days+12)
 	p.Write(root)
-	start := proj.ZEIT(proj.D(e1Start))
+	start := proj.ZEIT(proj.D(c10Start))
 	applied := map[int]float64{}
 	pr := &hermes.VerifProbe{AfterEvatra: func(g *hermes.GlobalVarsMain, zeit int, w *hermes.WaterSharedVars) {
 		if g.EffectiveIRRIG > 0 {
